@@ -207,7 +207,11 @@ func (st *c39state) postOne(c *Ctx, t, v int) bool {
 					s.expect = append(s.expect, c39exp{t, v, false})
 					s.pending++
 				} else {
-					s.expect = append(s.expect, c39exp{t, v, true})
+					// posted while the channel was full: the property allows the loss, and a full Go
+					// channel cannot take it anyway, so nothing is expected (recording it as an
+					// "optional" entry made identical events — all nil events are (7,0) — ambiguous
+					// and raised a false alarm in the first thorough run)
+					c.Count("oracle/posted-while-full")
 				}
 			}
 		}
